@@ -287,7 +287,7 @@ CHECKS = {
     "C14": {
         "explanation": "bounded symbolic execution of protocol.checkEnvelope and wrappers over all byte strings up to maxlen",
         "assumptions": [
-            "protobuf-go Marshal/Unmarshal are outside the encoding (library decoder assumed total)",
+            "protobuf Marshal/Unmarshal are outside the encoding (library codec assumed total): in the wrapper and NATS-message harnesses the encoder is a stand-in returning an arbitrary byte string and the decoder one that records its input and succeeds or fails by choice",
             "crc32 over symbolic bytes is an uninterpreted function (sound for unsat; sat models are replayed natively)",
         ],
         "groups": [
@@ -295,6 +295,15 @@ CHECKS = {
              "harnesses": [
                  {"name": "VerifC14CheckEnvelope", "quick": {"maxlen": 14}, "thorough": {"maxlen": 24},
                   "covers": ["accepted", "rejected", "accepted-with-crc"], "targets": ["checkEnvelope", "hasBit"]},
+                 {"name": "VerifC14ReplicationResponse", "quick": {"maxlen": 26}, "thorough": {"maxlen": 34},
+                  "covers": ["accepted", "rejected"], "targets": ["UnmarshalReplicationResponse", "checkEnvelope"]},
+                 {"name": "VerifC14Wrappers", "quick": {"maxpayload": 3}, "thorough": {"maxpayload": 6}, "replay": "interpreted",
+                  "covers": ["same-type", "other-type"], "targets": ["marshalEnvelope", "unmarshalEnvelope", "UnmarshalRaftJoinResponse", "WriteReplicationResponseHeader"]},
+             ]},
+            {"pkg": "./server", "overlay": "server", "pkgname": "server",
+             "harnesses": [
+                 {"name": "VerifC14NatsMessage", "quick": {"maxlen": 12}, "thorough": {"maxlen": 20}, "replay": "interpreted",
+                  "covers": ["decoded", "decoder-refused", "not-an-envelope"], "targets": ["natsToProtoMessage", "getMessage", "UnmarshalPublish", "checkEnvelope"]},
              ]},
         ],
     },
@@ -339,8 +348,8 @@ META = {
             "design_ref": "DESIGN.md §4 C08", "note": "bounds: 3 (quick) / 4 (thorough) messages + 1 concurrent append, segment size 40..200; scan workers run-to-block; compaction racing Truncate outside", "technique": TECH},
     "C09": {"text": "Bounded symbolic model checking of the implementation: real retention cleaning on a real log over memFS with symbolic byte/message/age limits, symbolic clock and an append racing the clean; suffix-only, newest kept, minimality, every limit afterwards, files removed, contiguous read-back, idempotence.",
             "design_ref": "DESIGN.md §4 C09", "note": "bounds: 4 (quick) / 5 (thorough) single-message appends, segment size 40..200 (so 1-5 segments of 1-4 messages), values of 1 or 4 bytes; limits and TTL full 64-bit", "technique": TECH},
-    "C14": {"text": "Bounded symbolic model checking of the implementation: checkEnvelope and the Unmarshal wrappers are executed symbolically over every byte string up to the stated length and every expected type; run-time panics are explicit paths; each assertion is an SMT query (unsat on every path = holds for all inputs within the bound).",
-            "design_ref": "DESIGN.md §4 C14", "note": "bound: data length <= 14 (quick) / 24 (thorough); protobuf decoding behind the envelope is assumed total; CRC is an uninterpreted function", "technique": TECH},
+    "C14": {"text": "Bounded symbolic model checking of the implementation: checkEnvelope, the hand-rolled replication response decoder, all 15 typed Marshal*/Unmarshal* wrapper pairs (own type decodes and hands the decoder exactly the encoder's bytes, every other type is refused) and the server's natsToProtoMessage (decoded envelope or verbatim value, NATS subject/reply headers not spoofable) are executed symbolically over every byte string up to the stated length; run-time panics are explicit paths; each assertion is an SMT query (unsat on every path = holds for all inputs within the bound).",
+            "design_ref": "DESIGN.md §4 C14", "note": "bound: data length <= 14 (quick) / 24 (thorough) for checkEnvelope, 26/34 for the replication response, payload <= 3/6 bytes for the wrapper pairs, 12/20 bytes for natsToProtoMessage; the protobuf codec behind the envelope is a stand-in (assumed total); CRC is an uninterpreted function", "technique": TECH},
 }
 
 _PENDING = "check not built yet in this session; see DESIGN.md §4 for the planned harness"
@@ -351,7 +360,7 @@ NOT_APPLICABLE = {("C%02d" % i): _PENDING for i in range(1, 20)}
 # the unchanged tree are listed.
 _BOTH = ["z3-new", "cvc5"]
 XSOLVER = {
-    "VerifC14CheckEnvelope": _BOTH,
+    "VerifC14CheckEnvelope": _BOTH, "VerifC14ReplicationResponse": _BOTH,
     "VerifC17RoundTrip": _BOTH, "VerifC17ReadTotal": _BOTH, "VerifC17Truncated": _BOTH,
     "VerifC17Tampered": _BOTH, "VerifC17Substituted": _BOTH,
     "VerifC16ConditionalAppend": _BOTH, "VerifC09Retention": _BOTH,
